@@ -43,6 +43,15 @@ CONFIG = """
 \texclude = refs/heads
 [refgroup "tags.releases"]
 \tinclude = refs/tags/release
+[refgroup "proj"]
+\tinclude = refs/heads
+\texclude = refs/heads/foo
+[refgroup "proj.rel.v1"]
+\tincludeRegexp = refs/(heads|tags)/(feature|release|foo).*
+[refgroup "proj.rel.v2"]
+\tinclude = refs/heads/main
+[refgroup "deepunion.x.y.z"]
+\tinclude = refs/remotes
 """
 CONFIG_ENTRIES = [
     ("refgroup.mygroup.include", "refs/heads/foo"), ("refgroup.mygroup.include", "refs/tags"),
@@ -53,6 +62,10 @@ CONFIG_ENTRIES = [
     ("refgroup.union.b.includeregexp", "refs/pull/\\d+/head"),
     ("refgroup.onlyexcl.exclude", "refs/heads"),
     ("refgroup.tags.releases.include", "refs/tags/release"),
+    ("refgroup.proj.include", "refs/heads"), ("refgroup.proj.exclude", "refs/heads/foo"),
+    ("refgroup.proj.rel.v1.includeregexp", "refs/(heads|tags)/(feature|release|foo).*"),
+    ("refgroup.proj.rel.v2.include", "refs/heads/main"),
+    ("refgroup.deepunion.x.y.z.include", "refs/remotes"),
 ]
 
 ALPHABET = [
@@ -66,6 +79,7 @@ ALPHABET = [
     ["--include-regexp", "refs/heads/feature/[ab]"], ["--exclude-regexp", ".*/x"], ["--refgroup", "changes"],
     ["--include", "@pulls"], ["--exclude", "@tags.releases"], ["--include", "@mygroup.sub.deep"],
     ["--include", "refs/heads/a+b"], ["--exclude", "/refs/heads/a\\+b|refs/heads/x\\|y/"],
+    ["--include", "@proj.rel.v1"], ["--exclude", "@proj.rel"], ["--include", "@deepunion.x"], ["--refgroup", "proj.rel.v2"],
 ]
 
 _REGEX_ATOMS = ["refs", "heads", "tags", "foo", "main", "v1", "/", "/", ".", ".*", "[a-z]+", "\\d+", "(heads|tags)",
@@ -190,6 +204,61 @@ def api_filter_cases(rng, n):
     return names, cases
 
 
+def forest_case(arg):
+    """Random refgroup forests (generator of C07) x option sequences that use @group: marks vs the membership model."""
+    from .C07 import gen_forest, render_config, REFPOOL
+    seed, idx, binary, scratch = arg
+    rng = random.Random("C06f|%d|%d" % (seed, idx))
+    d = os.path.join(scratch, "g%d" % idx)
+    os.makedirs(d)
+    out = []
+    try:
+        refs = [r for r in rng.sample(REFPOOL, rng.randint(6, len(REFPOOL))) if r != "refs/foo"]
+        entries = gen_forest(rng, refs, deep=(idx % 4 == 3))
+        blob = G.Blob(b"x\n")
+        c = G.Commit(G.Tree([G.Entry(G.FILE, b"f", blob)]), [], msg=b"only\n")
+        m = G.Model()
+        m.config = render_config(entries)
+        for r in refs:
+            m.refs[r] = c
+        gitdir = G.write_model(m, os.path.join(d, "repo"), packed_refs=True)
+        p = G.rgit(gitdir, "config", "--list", "-z", check=False)
+        got = [(k.decode(), v.decode()) for k, v in S.parse_config_z(p.stdout) if k.startswith(b"refgroup.") and v is not None]
+        forest = S.Forest(got)
+        if p.returncode != 0 or forest.undefined():
+            return [("discard", None, None)]
+        syms = [s_ for s_ in forest.groups if "\n" not in s_ and s_ != ""]
+        for k in range(6):
+            seq = []
+            for _ in range(rng.randint(1, 3)):
+                r_ = rng.random()
+                if r_ < 0.65:
+                    seq.append([rng.choice(["--include", "--exclude"]), "@" + rng.choice(syms)])
+                elif r_ < 0.8:
+                    seq.append(rng.choice([["--branches"], ["--no-tags"], ["--remotes"]]))
+                else:
+                    ref = rng.choice(refs)
+                    seq.append([rng.choice(["--include", "--exclude"]), "/".join(ref.split("/")[:rng.randint(2, 3)])])
+            root = rng.choice([None, None, refs[0]])
+            argv = ["--json", "--no-progress", "--show-refs"] + [a for o in seq for a in o] + ([root] if root else [])
+            r = R.sizer(binary, gitdir, argv, tmpdir=d)
+            rules = [S.parse_opt(o) for o in seq]
+            want = {ref: S.selected(rules, 1 if root else 0, ref, forest) for ref in refs}
+            if r.rc != 0 or r.timed_out:
+                out.append(("fail", argv, {"rc": r.rc, "stderr": r.err[-400:], "entries": entries[:12]}))
+                continue
+            _, marks, _ = P.parse_stderr(r.err)
+            gotm = {n.decode("utf-8", "replace"): plus for plus, n in marks}
+            diff = sorted(ref for ref in refs if gotm.get(ref) != want[ref])
+            if diff:
+                out.append(("mismatch", argv, {"refs": diff[:5], "want": [want[x] for x in diff[:5]], "entries": entries[:16]}))
+            else:
+                out.append(("ok", argv, sum(want.values())))
+    finally:
+        shutil.rmtree(d, ignore_errors=True)
+    return out
+
+
 def run(chk, b, tier):
     rng = random.Random("C06|%d" % R.SEED)
     sz = b.sizer()
@@ -259,6 +328,23 @@ def run(chk, b, tier):
     chk.sample({"argv": results[5][1], "result": results[5][0]})
     chk.sample({"argv": results[-1][1], "result": results[-1][0]})
 
+    # random refgroup forests x @group options
+    nf = 40 if tier == "quick" else 600
+    fres = R.pmap(forest_case, [(R.SEED, i, sz, scratch) for i in range(nf)], chk=chk)
+    for lst in fres:
+        for status, argv, info in lst:
+            if status == "discard":
+                chk.bump("forest_generator_discards")
+                continue
+            chk.count()
+            if status == "ok":
+                if info > 0:
+                    chk.nontrivial("forest:" + " ".join(argv))
+                chk.bump("forest_runs_agreeing")
+            elif status == "mismatch":
+                chk.violation("C06/cli/mark-mismatch/generated-refgroup-forest", {"argv": argv, **info})
+            else:
+                chk.violation("C06/cli/run-failed/generated-refgroup-forest", {"argv": argv, **info})
     # API level: the match relation
     drv = b.apidrv()
     names, cases = api_filter_cases(rng, 1500 if tier == "quick" else 30000)
